@@ -262,6 +262,11 @@ class History(RuleBasedStateMachine):
             except Exception:
                 raised = True
         delivered = worker in inject.read_markers(md)['faults']
+        # the siblings of a failed worker may still be running when a (non-mapping) stage has raised: wait for them,
+        # so that what they leave behind is attributed to THIS step (where the statement tolerates it) and not to a later one
+        import multiprocessing
+        for ch in multiprocessing.active_children():
+            ch.join(timeout=30)
         shutil.rmtree(md, ignore_errors=True)      # a sibling worker of a failed stage may still be writing its stamp
         self._check_inputs(what)
         self._check_outputs(ob, tag, what)
